@@ -29,7 +29,7 @@ pub fn reader_classes() -> Vec<&'static str> {
         "sock_empty", "sock_one_byte", "sock_max_size", "sock_burst_64", "sock_empty_between_valid",
         // submessages the MessageReceiver interprets itself, whoever sent them: element counts and short bodies
         "interp_info_reply_count_max", "interp_info_reply_count_huge", "interp_info_reply_mcast_count_huge", "interp_info_reply_ip4",
-        "interp_short_bodies", "interp_info_src_dst_ts_then_data",
+        "interp_short_bodies", "interp_info_src_dst_ts_then_data", "interp_info_reply_redirect",
     ]
 }
 
@@ -295,6 +295,18 @@ pub fn reader_datagrams(cls: &str, ctx: &Ctx) -> Vec<Vec<u8>> {
             b.push(1);
             b.extend_from_slice(&u32::MAX.to_le_bytes());
             vec![wire::encode(p, &[Sub::Other { kind: 0x0f, flags: 3, body: a }]), wire::encode(p, &[Sub::Other { kind: 0x0f, flags: 3, body: b }])]
+        }
+        // a well-formed INFO_REPLY naming somebody else's address, alone in its datagram: it speaks about the submessages that
+        // follow it in the SAME message, so it must not redirect the replies to anybody else's later datagrams
+        "interp_info_reply_redirect" => {
+            let mut loc = vec![];
+            loc.extend_from_slice(&1u32.to_le_bytes()); // one locator
+            loc.extend_from_slice(&1i32.to_le_bytes()); // LOCATOR_KIND_UDPv4
+            loc.extend_from_slice(&39_999u32.to_le_bytes());
+            loc.extend_from_slice(&[0, 0, 0, 0, 0, 0, 0, 0, 0, 0, 0, 0, 127, 0, 0, 1]);
+            let mut tagged = loc.clone();
+            tagged.push(0); // the framing this crate reads (finding X2): a 1-octet "no multicast list" tag
+            vec![wire::encode(p, &[Sub::Other { kind: 0x0f, flags: 1, body: tagged }]), wire::encode(p, &[Sub::Other { kind: 0x0f, flags: 1, body: loc }])]
         }
         "interp_info_reply_ip4" => vec![
             wire::encode(p, &[Sub::Other { kind: 0x0d, flags: 1, body: vec![0xff; 8] }]),
